@@ -524,7 +524,7 @@ func ValidTopicName(mustUTF8 bool, p []byte) bool {
 		}
 		if size == 1 {
 			//主题名不允许使用通配符
-			if p[0] == byte('+') || p[0] == byte('#') {
+			if p[0] == byte('+') || p[0] == byte('#') || p[0] == 0 { // no wildcards, no U+0000 [MQTT-4.7.3-2]
 				return false
 			}
 		}
@@ -536,6 +536,9 @@ func ValidTopicName(mustUTF8 bool, p []byte) bool {
 // ValidV5Topic returns whether the given bytes is a valid MQTT V5 topic
 func ValidV5Topic(p []byte) bool {
 	if len(p) == 0 {
+		return false
+	}
+	if bytes.IndexByte(p, 0) >= 0 { // [MQTT-4.7.3-2]
 		return false
 	}
 	if bytes.HasPrefix(p, []byte("$share/")) {
@@ -574,6 +577,9 @@ func ValidV5Topic(p []byte) bool {
 // ValidTopicFilter  returns whether the bytes is a valid topic filter. [MQTT-4.7.1-2]  [MQTT-4.7.1-3]
 func ValidTopicFilter(mustUTF8 bool, p []byte) bool {
 	if len(p) == 0 {
+		return false
+	}
+	if bytes.IndexByte(p, 0) >= 0 { // [MQTT-4.7.3-2]
 		return false
 	}
 	var prevByte byte //前一个字节
